@@ -935,11 +935,49 @@ def write_extra_decls(m, root):
 # Gen itself is unchanged (its random stream too); use DenseGen(rng, ...) instead of Gen(rng, ...).
 # ---------------------------------------------------------------------------------------
 class DenseGen(Gen):
-    def __init__(self, rng, *, dense=0.2, name_tuples=0.25, **kw):
+    def __init__(self, rng, *, dense=0.2, name_tuples=0.25, wide=0.0, **kw):
         super().__init__(rng, **kw)
         self.dense = dense
         self.name_tuples = name_tuples
-        self.stats = {"dense": 0, "tuples": 0}
+        # wide: probability that a method gets 3-10 parameters with LONG names (20-40 bytes), variadic
+        # of several element types (incl. ...any) or not, and long named results, so that ArgList /
+        # ArgCallList / ArgTypeList / ReturnArgList / Declaration cross every plausible width
+        # threshold (60/80/100/120/200 bytes).  Default 0 (stream of existing users unchanged).
+        self.wide = wide
+        self.stats = {"dense": 0, "tuples": 0, "wide": 0}
+
+    WORDS = ["request", "Timeout", "Duration", "Milliseconds", "Upstream", "Connection", "Identifier", "Buffer", "Capacity",
+             "Retry", "Policy", "Deadline", "Observer", "Callback", "Payload", "Encoding", "Maximum", "Pending", "Handler", "Options"]
+
+    def long_name(self, used):
+        while True:
+            k = self.rng.randint(2, 4)
+            ws = self.rng.sample(self.WORDS, k)
+            n = ws[0].lower() + "".join(w.capitalize() for w in ws[1:])
+            while len(n) < 20:
+                n += self.rng.choice(self.WORDS).capitalize()
+            n = n[:40]
+            if n not in used:
+                used.add(n)
+                return n
+
+    def wide_sig(self, tparams, depth):
+        rng = self.rng
+        used = set()
+        np_ = rng.choice([3, 3, 4, 5, 6, 8, 10])
+        simple = [basic("string"), basic("int"), basic("bool"), basic("error"), basic("any")]
+        params = [{"n": self.long_name(used), "t": (rng.choice(simple) if rng.random() < 0.5 else self.ty(tparams, depth + 1))} for _ in range(np_)]
+        variadic = rng.random() < 0.6
+        if variadic:
+            el = rng.choice([basic("any"), basic("any"), {"k": "iface", "methods": [], "embeds": []}, basic("string"), basic("int"),
+                             params[-1]["t"], named("", "Local")])
+            params[-1]["t"] = {"k": "slice", "e": el}
+        nr = rng.choice([0, 1, 2, 3])
+        named_res = rng.random() < 0.5
+        results = [{"n": (self.long_name(used) if named_res else ""), "t": (basic("error") if i == nr - 1 else rng.choice(simple[:3] + [self.ty(tparams, depth + 1)]))}
+                   for i in range(nr)]
+        self.stats["wide"] += 1
+        return {"params": params, "variadic": variadic, "results": results}
 
     def _has_time(self):
         return any(s["path"] == "time" for s in self.std)
@@ -1014,6 +1052,8 @@ class DenseGen(Gen):
         return path.split("/")[-1]
 
     def sig(self, tparams, depth, max_params=4, max_results=3, allow_variadic=True):
+        if depth == 0 and self.wide and self.rng.random() < self.wide:
+            return self.wide_sig(tparams, depth)
         s = super().sig(tparams, depth, max_params, max_results, allow_variadic)
         ps = s["params"]
         if depth != 0 or not self.name_tuples or len(ps) < 2 or any(p["n"] in ("", "_") for p in ps) or self.rng.random() >= self.name_tuples:
